@@ -239,8 +239,16 @@ def run(check):
         check.violation("an unsupported construct (%s) is accepted without an error" % c["kind"],
                         case={"source": c["text"], "planted": c["kind"], "request": c["r"]}, impl=c["impl"], model=c["model"],
                         failing_input=True)
-    cli_part(check, [c for c in cases if not c["skipped"] and rejected(c["impl"]) and "panic" not in c["impl"]],
-             [c for c in cases if c["skipped"] and not rejected(c["impl"]) and c["impl"].get("ok")])
+    cli_bad = [c for c in cases if not c["skipped"] and rejected(c["impl"]) and "panic" not in c["impl"]]
+    cli_good = [c for c in cases if c["skipped"] and not rejected(c["impl"]) and c["impl"].get("ok")]
+    cli_part(check, cli_bad, cli_good)
+    check.rule += ("; arrival part: the planted program reaches the scanned tree as a plain file, in a nested directory, as a "
+                   "symbolic link (absolute / relative / chained / to a target not named *.rs / with -L), as a hard link, inside a "
+                   "symlinked directory (without and with -L), twice (same root twice, root and sub-root, link and plain file), as "
+                   "a root of its own (file, link to a file, link to a directory), or in a place the tool documents as not scanned "
+                   "(hidden / git-ignored / tools/typeshare directory), next to 1-3 ordinary annotated files, single-file and "
+                   "folder output, relative / absolute roots")
+    arrival_part(check, cli_bad, cli_good)
     check.assumptions += ["the generator plants one construct into programs the generator itself considers valid; validity is confirmed by the skipped twin being accepted"]
 
 
@@ -299,3 +307,291 @@ def cli_part(check, bad, good):
                     check.violation("CLI rejects the skipped twin (%s, %s)" % (c["kind"], lang),
                                     case={"source": c["text"], "lang": lang}, impl={"rc": r["rc"], "stderr": r["err"][-2000:]},
                                     failing_input=True)
+
+
+# ----------------------------------------------------------------------------- how the offending file gets into the scanned tree
+
+NEIGHBOUR = "#[typeshare]\npub struct PlainNeighbourFile%s { pub n: u8 }\n"
+HARMLESS = "// nothing annotated in this file\npub struct NotShared { pub n: u64 }\n"
+# layout -> is the file scanned at all?  (False: the unchanged tool documents / shows that it is not: `-L` "follow symbolic links
+# to directories instead of ignoring them", hidden directories, git-ignored directories, the `tools/typeshare` override)
+ARRIVALS = [("plain", True), ("nested", True),
+            ("symlink-absolute", True), ("symlink-relative", True), ("symlink-chain", True), ("symlink-odd-target", True),
+            ("symlink-with-L", True), ("hard-link", True),
+            ("linked-dir", False), ("linked-dir-with-L", True),
+            ("twice-same-root", True), ("twice-root-and-sub-root", True), ("twice-link-and-plain", True),
+            ("root-file", True), ("root-link-to-file", True), ("root-link-to-dir", True),
+            ("hidden-dir", False), ("git-ignored-dir", False), ("tools-typeshare-dir", False)]
+
+
+def arrival_tree(sc, layout, text, rng):
+    """build a workspace below sc.dir: crate `mmm` with 1-3 ordinary annotated files, and `text` arriving in crate `aaa` / `zzz`
+    (sorting before / after `mmm`) the way `layout` says.  The draws shared by all layouts come first, so the same seed gives the
+    same crate, file name and neighbours for every layout.  Returns dict(roots, flags, shown, real):
+    roots = root arguments relative to sc.dir; shown = the relative paths under which the walker meets the file (the diagnostic
+    has to name one of them); real = the regular file that holds the text."""
+    crate = rng.choice(["aaa", "zzz"])
+    name = rng.choice(["lib.rs", "mod.rs", "a_types.rs", "wire.rs", "zz_models.rs"])
+    for i in range(rng.randint(1, 3)):
+        sc.write("proj/mmm/src/%s" % ["lib.rs", "b_other.rs", "zzz_last.rs"][i], NEIGHBOUR % ("" if i == 0 else str(i)))
+    root_style = rng.choice(["relative", "relative", "absolute", "dot-slash", "trailing-slash"])
+    src = "proj/%s/src" % crate
+    roots, flags = ["proj"], []
+
+    def link(target_rel, link_rel, relative):
+        os.makedirs(os.path.dirname(sc.path(link_rel)), exist_ok=True)
+        target = sc.path(target_rel)
+        os.symlink(os.path.relpath(target, os.path.dirname(sc.path(link_rel))) if relative else target, sc.path(link_rel))
+
+    real = shown = None
+    if layout == "plain":
+        real = "%s/%s" % (src, name)
+    elif layout == "nested":
+        dirs = [rng.choice(["deep", "er", "v1", "models", "inner"]) for _ in range(rng.randint(1, 4))]
+        real = "%s/%s/%s" % (src, "/".join(dirs), name)
+        os.makedirs(sc.path("%s/%s/empty_dir" % (src, dirs[0])), exist_ok=True)
+    elif layout in ("symlink-absolute", "symlink-relative", "symlink-with-L", "symlink-odd-target"):
+        real = "elsewhere/" + (rng.choice(["models.rs.in", "MODELS", "shared.txt"]) if layout == "symlink-odd-target" else
+                               rng.choice(["shared_models.rs", name]))
+        shown = "%s/%s" % (src, name)
+        link(real, shown, layout == "symlink-relative" or (layout in ("symlink-with-L", "symlink-odd-target") and rng.random() < 0.5))
+        if layout == "symlink-with-L":
+            flags = ["-L"]
+    elif layout == "symlink-chain":
+        real = "elsewhere/shared_models.rs"
+        at = real
+        for h in range(rng.randint(1, 2)):
+            hop = "elsewhere/hops/hop%d.rs" % h
+            link(at, hop, rng.random() < 0.5)
+            at = hop
+        shown = "%s/%s" % (src, name)
+        link(at, shown, rng.random() < 0.5)
+    elif layout == "hard-link":
+        real = "elsewhere/shared_models.rs"
+        shown = "%s/%s" % (src, name)
+    elif layout in ("linked-dir", "linked-dir-with-L"):
+        # the directory link is the crate directory, its src directory, or a directory below src
+        level = rng.choice(["crate", "src", "below-src"])
+        if level == "crate":
+            real, at, to = "elsewhere/cratedir/src/" + name, "proj/" + crate, "elsewhere/cratedir"
+        elif level == "src":
+            real, at, to = "elsewhere/srcdir/" + name, src, "elsewhere/srcdir"
+        else:
+            real, at, to = "elsewhere/shared/" + name, src + "/shared", "elsewhere/shared"
+        shown = at + real[len(to):]
+        if layout == "linked-dir-with-L":
+            flags = ["-L"]
+    elif layout == "twice-same-root":
+        real = "%s/%s" % (src, name)
+        roots = ["proj", "proj"]
+    elif layout == "twice-root-and-sub-root":
+        real = "%s/inner/%s" % (src, name)
+        roots = ["proj", rng.choice(["proj/" + crate, src, src + "/inner"])]
+        if rng.random() < 0.5:
+            roots.reverse()
+    elif layout == "twice-link-and-plain":
+        real = "%s/%s" % (src, name)
+        shown = [real, "proj/mmm/src/linked_" + name]
+    elif layout == "root-file":
+        real = "other/%s/src/%s" % (crate, name)
+        roots = ["proj", real]
+    elif layout == "root-link-to-file":
+        real = "elsewhere/shared_models.rs"
+        shown = "other/%s/src/%s" % (crate, name)
+        roots = ["proj", shown]
+    elif layout == "root-link-to-dir":
+        real = "elsewhere/ws/%s/src/%s" % (crate, name)
+        shown = "rootlink/%s/src/%s" % (crate, name)
+        roots = ["proj", "rootlink"]
+    elif layout == "hidden-dir":
+        real = "%s/%s/%s" % (src, rng.choice([".private", ".cache/gen"]), name)
+    elif layout == "git-ignored-dir":
+        real = "%s/generated/%s" % (src, name)
+        sc.write("proj/%s/.gitignore" % crate, rng.choice(["generated/\n", "/src/generated\n", "**/generated/*.rs\n"]))
+    elif layout == "tools-typeshare-dir":
+        real = "%s/tools/typeshare/%s" % (rng.choice([src, "proj/" + crate, "proj"]), name if rng.random() < 0.5 else "src/" + name)
+    else:
+        raise ValueError(layout)
+    sc.write(real, text)
+    if layout == "hard-link":
+        os.makedirs(sc.path(src), exist_ok=True)
+        os.link(sc.path(real), sc.path(shown))
+    elif layout in ("linked-dir", "linked-dir-with-L"):
+        link(to, at, rng.random() < 0.5)
+    elif layout == "twice-link-and-plain":
+        link(real, shown[1], rng.random() < 0.5)
+    elif layout == "root-link-to-file":
+        link(real, shown, rng.random() < 0.5)
+    elif layout == "root-link-to-dir":
+        link("elsewhere/ws", "rootlink", rng.random() < 0.5)
+    if layout.startswith("root-") and rng.random() < 0.5:
+        roots.reverse()
+    if not flags and layout != "linked-dir" and not layout.startswith("symlink-") and rng.random() < 0.15:
+        flags = ["-L"]          # following links changes nothing when no directory link is involved
+    shown = [real] if shown is None else ([shown] if isinstance(shown, str) else shown)
+    style = {"relative": lambda r: r, "absolute": sc.path, "dot-slash": lambda r: "./" + r, "trailing-slash": lambda r: r + ("" if r.endswith(".rs") else "/")}
+    return dict(roots=[style[root_style](r) for r in roots], flags=flags, shown=shown, real=real, root_style=root_style)
+
+
+def tree_listing(root):
+    """the workspace as a reader can rebuild it: D directory / F file [links=n] / L link -> target"""
+    out = []
+    for d, dirs, files in os.walk(root):
+        dirs.sort()
+        if ".git" in dirs:
+            dirs.remove(".git")
+        for n in sorted(dirs + files):
+            p = os.path.join(d, n)
+            rel = os.path.relpath(p, root)
+            if os.path.islink(p):
+                out.append("L %s -> %s" % (rel, os.readlink(p).replace(root, "$PWD")))
+            elif os.path.isdir(p):
+                out.append("D %s" % rel)
+            else:
+                st = os.stat(p)
+                out.append("F %s%s" % (rel, " [hard links=%d]" % st.st_nlink if st.st_nlink > 1 else ""))
+    return out
+
+
+def arrival_run(sc, t, lang, folder, dest, order=None):
+    args = ["--lang", lang, "-d" if folder else "-o", dest] + lang_args(lang) + t["flags"] + t["roots"]
+    return args, run_cli(args, cwd=sc.dir, env={"TYPESHARE_VERIF_ORDER": order} if order else None)
+
+
+def produced(sc, dest):
+    """what a run left at the destination: {relative path: bytes}"""
+    p = sc.path(dest)
+    if os.path.isdir(p):
+        return {k: v[0] for k, v in snapshot(p).items()}
+    return {"": open(p, "rb").read()} if os.path.exists(p) else {}
+
+
+def show(prod):
+    return {k: v.decode("utf-8", "replace")[-1500:] for k, v in prod.items()}
+
+
+def arrival_part(check, bad, good):
+    """Dimension: HOW the file with the unsupported construct gets into the scanned tree - written there, in a nested directory,
+    as a symbolic link to a file kept elsewhere (absolute, relative, chained, target not named *.rs, with -L), as a hard link,
+    inside a symlinked directory (crate / src / lower level; without -L and with -L), seen twice (the same root twice, a root and a
+    root inside it, a plain file plus a link to it), named as a root itself (a file, a link to a file, a link to a directory), or
+    put where the unchanged tool does not look (hidden directory, git-ignored directory, tools/typeshare) - always next to 1-3
+    ordinary annotated files of another crate that sorts before / after it, with single-file and folder output over a pre-existing
+    destination, roots written relative / absolute / with ./ / with a trailing slash, both orders of arrival at the collector.
+    Demands, for every way in which the file IS scanned: non-zero exit, the diagnostic names the path under which the walker met
+    the file, nothing below the workspace is created or modified; and the skipped twin arriving the same way succeeds and
+    generates byte for byte what it generates as a plain file (twice-seen files: every line of that).  For the ways in which the
+    file is NOT scanned: the run succeeds and writes exactly what it writes when that file holds nothing annotated."""
+    if not bad:
+        return
+    rng = check.rng
+    per = 12 if check.thorough else 3
+    reported = 0
+    for layout, scanned in ARRIVALS:
+        if reported >= 3:
+            return
+        for k in range(per):
+            c = rng.choice(bad)
+            lang = rng.choice(LANGS)
+            folder = rng.random() < 0.35
+            seed = rng.getrandbits(32)
+            check.count("arrival-" + layout)
+            check.count("arrival-output-" + ("folder" if folder else "file"))
+            with Scratch() as sc:
+                t = arrival_tree(sc, layout, c["text"], random.Random(seed))
+                check.count("arrival-roots-" + t["root_style"])
+                if folder:
+                    dest = "outdir"
+                    sc.write("outdir/keep.txt", "PRE-EXISTING\n")
+                    sc.write("outdir/%s.%s" % (t["shown"][0].split("/")[1], EXT[lang]), "PRE-EXISTING\n")
+                else:
+                    dest = "out." + EXT[lang]
+                    sc.write(dest, "PRE-EXISTING\n")
+                listing = tree_listing(sc.dir)
+                before = snapshot(sc.dir)
+                for order in (None, "rev"):
+                    args, r = arrival_run(sc, t, lang, folder, dest, order)
+                    if r["timed_out"] or r["rc"] == 0:
+                        break
+                after = snapshot(sc.dir)
+                check.saw(("arrival", layout, lang, folder, c["text"]), nontrivial=True)
+                case = {"source": c["text"], "planted": c["kind"], "lang": lang, "layout": layout, "workspace": listing,
+                        "file_with_the_source": t["real"], "command": "cd <workspace> && typeshare " + " ".join(args),
+                        "other_files": "every F under proj/mmm holds `%s` (with its own number); F out.* / outdir/* hold `PRE-EXISTING`" % (NEIGHBOUR % "<n>").strip(),
+                        "order_of_arrival": order}
+                log = r["err"] + r["out"]
+                if scanned:
+                    problems = []
+                    if r["timed_out"]:
+                        problems.append("timed out")
+                    elif r["rc"] == 0:
+                        problems.append("exit status 0")
+                    if after != before:
+                        problems.append("files changed: %s" % sorted(k for k in set(after) | set(before) if after.get(k) != before.get(k)))
+                    if not r["timed_out"] and not any(s in log for s in t["shown"]):
+                        problems.append("no diagnostic names the file (%s)" % " / ".join(t["shown"]))
+                    if problems:
+                        check.violation("CLI, the file with an unsupported construct (%s) reaches the scanned tree as `%s` "
+                                        "(%s, %s output): %s" % (c["kind"], layout, lang, "folder" if folder else "single-file",
+                                                                 "; ".join(problems)),
+                                        case=case, impl={"rc": r["rc"], "stderr": r["err"][-2000:], "destination_after": show(produced(sc, dest))},
+                                        failing_input=True)
+                        reported += 1
+                        break
+                else:
+                    # legitimately not scanned: the file must not influence the run at all
+                    with_bad = produced(sc, dest)
+                    with open(sc.path(t["real"]), "w", encoding="utf-8") as f:
+                        f.write(HARMLESS)
+                    args, r2 = arrival_run(sc, t, lang, folder, dest)
+                    without = produced(sc, dest)
+                    check.count("arrival-not-scanned")
+                    if r["rc"] != 0 or r2["rc"] != 0 or with_bad != without or any(s in log for s in t["shown"]):
+                        check.violation("CLI, a file with an unsupported construct (%s) in a place the tool does not scan (`%s`; %s, "
+                                        "%s output) influences the run: exit status %s against %s with a harmless file there, "
+                                        "destination %s" % (c["kind"], layout, lang, "folder" if folder else "single-file", r["rc"],
+                                                            r2["rc"], "identical" if with_bad == without else "differs"),
+                                        case=case, impl={"rc": r["rc"], "stderr": r["err"][-2000:], "destination_after": show(with_bad)},
+                                        model={"rc": r2["rc"], "destination_after": show(without)}, failing_input=True)
+                        reported += 1
+                        break
+            if not scanned or not good:
+                continue
+            # --- the skipped twin, arriving the same way, against the same twin as a plain file
+            g = rng.choice(good)
+            lang = rng.choice(LANGS)
+            folder = rng.random() < 0.35
+            seed = rng.getrandbits(32)
+            dest = "outdir" if folder else "out." + EXT[lang]
+            got = []
+            for lay in ("plain", layout):
+                with Scratch() as sc:
+                    t = arrival_tree(sc, lay, g["text"], random.Random(seed))
+                    if folder:
+                        os.makedirs(sc.path(dest))
+                    listing = tree_listing(sc.dir)
+                    args, r = arrival_run(sc, t, lang, folder, dest)
+                    got.append((r, produced(sc, dest), listing, args, t))
+            (r0, p0, _, _, _), (r1, p1, listing, args, t) = got
+            check.saw(("arrival-twin", layout, lang, folder, g["text"]), nontrivial=False)
+            if r0["rc"] != 0 or r0["timed_out"]:
+                check.count("arrival-twin-not-generated-as-plain-file")     # e.g. consts in a back end without them: cli_part / C07
+                continue
+            check.count("arrival-twin-" + layout)
+            if layout.startswith("twice-"):
+                lines = lambda p: {k: set(v.splitlines()) for k, v in p.items()}
+                same = r1["rc"] == 0 and all(ls <= lines(p1).get(k, set()) for k, ls in lines(p0).items())
+            else:
+                same = r1["rc"] == 0 and p1 == p0
+            if not same:
+                check.violation("CLI, the skipped twin (%s) reaches the scanned tree as `%s` (%s, %s output): %s" % (
+                    g["kind"], layout, lang, "folder" if folder else "single-file",
+                    "exit status %s although the same sources as plain files are generated" % r1["rc"] if r1["rc"] != 0 else
+                    "the run succeeds but does not generate what the same sources as plain files give"),
+                    case={"source": g["text"], "planted": g["kind"], "lang": lang, "layout": layout, "workspace": listing,
+                          "file_with_the_source": t["real"], "command": "cd <workspace> && typeshare " + " ".join(args),
+                          "other_files": "every F under proj/mmm holds `%s` (with its own number)" % (NEIGHBOUR % "<n>").strip()},
+                    impl={"rc": r1["rc"], "stderr": r1["err"][-1500:], "destination_after": show(p1)},
+                    model={"as_plain_files": show(p0)}, failing_input=True)
+                reported += 1
+                break
